@@ -153,6 +153,46 @@ def dist_fields(dist):
     return (m.group(1), nums)
 
 
+def dist_behaviour(dist):
+    """What the distribution object DOES (interval probabilities at a few masses chosen from its parameters), as opposed to what it prints: two
+    objects that denote the same distribution answer with identical floats.  None where probing is not cheap or not possible."""
+    f = dist_fields(dist)
+    if not f or f[0] == "?" or not f[1]:
+        return None
+    fam, nums = f
+    try:
+        from gbigsmiles.mol_prob import RememberAdd
+
+        if fam == "gauss":
+            if nums[1] <= 0:
+                return None
+            L, xs = nums[0] - 40 * nums[1], [nums[0] - nums[1], nums[0] + 0.3 * nums[1], nums[0] + 1.5 * nums[1]]
+        elif fam == "uniform":
+            L, xs = nums[0] - 10.0, [nums[0] + (nums[1] - nums[0]) * k for k in (0.25, 0.5, 0.9)]
+        elif fam == "log_normal":
+            L, xs = -5.0, [nums[0] * k for k in (0.5, 1.0, 2.0)]
+        elif fam == "poisson":
+            L, xs = -5.0, [nums[0] * k for k in (0.8, 1.0, 1.2)]
+        elif fam == "flory_schulz":
+            if nums[0] < 2e-3:
+                return None
+            L, xs = -5.0, [k / nums[0] for k in (0.5, 1.0, 3.0)]
+        elif fam == "schulz_zimm":
+            if nums[1] > 5000 or nums[0] >= 2 * nums[1]:
+                return None
+            L, xs = -5.0, [nums[1] * k for k in (0.5, 1.0, 2.0)]
+        else:
+            return None
+        out = []
+        for x in xs:
+            r = RememberAdd(float(L))
+            r += float(x) - float(L)
+            out.append(repr(float(dist.prob_mw(r))))
+        return tuple(out)
+    except Exception:
+        return None
+
+
 def compare_dist(lib_dist, d, where, P="c02"):
     out = []
     got = dist_fields(lib_dist)
@@ -292,6 +332,7 @@ def fp_stoch(s, weights=True):
         tuple(fp_token(t, weights) for t in s.repeat_tokens),
         tuple(fp_token(t, weights) for t in s.end_tokens),
         dist_fields(s.distribution) if weights else None,
+        dist_behaviour(s.distribution) if weights else None,
     )
 
 
